@@ -69,3 +69,12 @@ void h_hex(void) {
   C10_HEX(self, ret);
   VERIF_REACH();
 }
+
+#if C10_ALG == 3
+void h_rotate_right(void) {
+  uint32_t in_x;
+  uint8_t in_bits;
+  rotate_right(in_x, in_bits);
+  VERIF_REACH();
+}
+#endif
